@@ -105,6 +105,10 @@ def inventory(lib):
     for b in lib.bodies.values():
         if b.impl_trait in ("std::fmt::Debug",) and b.exp:
             continue
+        if b.kind.startswith("Const"):
+            # the initialiser of a `const` item is evaluated by the compiler: an overflow there is a compile error, never a
+            # run-time panic (e.g. `const LOWEST_BOUND: i64 = -i64::MAX;`)
+            continue
         ss = sites(b)
         if ss:
             inv[b.id] = ss
